@@ -55,7 +55,7 @@ def correspondence(ctx):
             ctx.traces += len(pts)
 
 
-def classify(ctx, kind, name, z, w, pre, gap_width, isolated, required, extra=None):
+def classify(ctx, kind, name, z, w, pre, gap_width, isolated, required, extra=None, defer=None, why_not_isolated=None):
     """the PEP 495 statements for one wall second, on the implementation"""
     from dateutil import tz
     case = {"kind": kind, "zone": name, "w": w, "gap_width": gap_width or 0}
@@ -100,7 +100,11 @@ def classify(ctx, kind, name, z, w, pre, gap_width, isolated, required, extra=No
                     else:
                         ri_req = False
         if not ri_req:
-            ctx.count("resolve_imaginary_not_required(other change within 24h)")
+            # the property has no such exclusion: these are real failures of resolve_imaginary; they are
+            # outside `resolve_imaginary_gap` because its 24 h hypothesis fails here (see `gap_context`)
+            ctx.count("resolve_imaginary_fails_where_theorem_hypothesis_fails:" + (why_not_isolated or "?"))
+            if ctx.hist["resolve_imaginary_fails_where_theorem_hypothesis_fails:" + (why_not_isolated or "?")] <= 3:
+                ctx.note("resolve_imaginary wrong at %s wall %d (gap %s s): not required because %s" % (name, w, gap_width, why_not_isolated))
     except Exception as ex:
         probs.append("raised %s: %s" % (type(ex).__name__, ex))
     if not required:
@@ -111,7 +115,31 @@ def classify(ctx, kind, name, z, w, pre, gap_width, isolated, required, extra=No
     if n == 0 and isolated:
         ctx.count("gap_isolated")
     for p in probs[:1]:
-        ctx.violation("%s wall %d: %s" % (name, w, p), case, probs)
+        if defer is not None:
+            defer.append(("%s wall %d: %s" % (name, w, p), case, probs))
+        else:
+            Z.report(ctx, KNOWN, "%s wall %d: %s" % (name, w, p), case, probs)
+
+
+def gap_context(seq, w, std_tail):
+    """(gap width, hypotheses of C05.resolve_imaginary_gap hold, reason when not) for a wall time inside a gap.
+    seq = [(u, offset before, offset after)].  The hypotheses: gap ≤ 24 h; every later transition at least
+    24 h after u; every earlier one took effect (wall clock) at least 24 h before the gap starts; a later
+    transition exists or ttinfo_std is the last type."""
+    for i, (u, b, a) in enumerate(seq):
+        if u + b <= w < u + a:
+            width = a - b
+            if width > 86400:
+                return width, True, None            # D-C05g: reported (known finding), not tolerated
+            for j, (u2, b2, a2) in enumerate(seq):
+                if j > i and not (u + 86400 <= u2):
+                    return width, False, "next transition within 24 h"
+                if j < i and not (u2 + b2 + 86400 <= u + b):
+                    return width, False, "previous change took effect within 24 h"
+            if i == len(seq) - 1 and not std_tail:
+                return width, False, "gap at the last v1 transition of a table ending on a DST type (code answers ttinfo_std after it)"
+            return width, True, None
+    return None, True, None
 
 
 def oracle(ctx):
@@ -134,40 +162,33 @@ def oracle(ctx):
         extra = {"stream": Z.hexs(data)} if name.startswith(("syn", "rnd")) else None
         for w, pre in zip(wps, pres):
             if pre != tl.pre(w):
-                ctx.violation("Lean Spec.pre and the independent enumeration disagree", {"kind": "tzfile", "zone": name, "w": w}, {"lean": pre, "reader": tl.pre(w)})
+                Z.report(ctx, KNOWN, "Lean Spec.pre and the independent enumeration disagree", {"kind": "tzfile", "zone": name, "w": w}, {"lean": pre, "reader": tl.pre(w)})
                 continue
-            gap_width, isolated = None, True
-            for i, (u, b, a) in enumerate(seq):
-                if u + b <= w < u + a:
-                    gap_width = a - b
-                    for j, (u2, b2, a2) in enumerate(seq):
-                        if j != i and b2 != a2 and abs(u2 - u) <= 86400 + abs(a - b) + abs(a2 - b2):
-                            isolated = False
-                    if i == len(seq) - 1 and not std_tail:
-                        isolated = False
-            required = wf and (std_tail or (lim is not None and w + 86400 < lim) or (len(pre) > 0 and lim is not None and w < lim and False))
-            if wf and not std_tail and lim is not None and w < lim:
-                required = True
-                if len(pre) == 0 and w + 86400 + 7200 >= lim:
-                    isolated = False
+            gap_width, isolated, why = gap_context(seq, w, std_tail)
+            required = wf and (std_tail or (lim is not None and w < lim))
             if not tl.utc and tl.first != tl.types[0]:
                 required = False       # no transition at all: the file's type 0 applies, "before the first transition" is empty
-            classify(ctx, "tzfile", name, z, w, pre, gap_width, isolated, required, extra)
+            classify(ctx, "tzfile", name, z, w, pre, gap_width, isolated, required, extra, why_not_isolated=why)
     # fixed zones: exactly one pre-image everywhere
     for o in P4.FIXED:
         z = tz.tzutc() if o == 0 else tz.tzoffset("X", o)
         for w in (0, 1, -1, Z.T0, Z.T0 + 1800):
             classify(ctx, "fixed", "tzoffset(%d)" % o, z, w, [w - o], None, True, True)
-    def blackbox(kind, name, z, std, dst, wps, extra=None):
+    def blackbox(kind, name, z, std, dst, wps, extra=None, defer=None):
+        # self-consistency sweep: pre-images from the zone's own UTC->local map (NOT independent;
+        # the independent sweep against the Lean POSIX spec is `posix_sweep` below)
         for w in wps:
             pre = sorted({t for t in (w - std, w - dst)
                           if Z.ts((Z.EPOCH + Z.TD(seconds=t)).replace(tzinfo=tz.UTC).astimezone(z)) == w})
-            classify(ctx, kind, name, z, w, pre, abs(dst - std) if len(pre) == 0 else None, True, True, extra)
+            classify(ctx, kind, name, z, w, pre, abs(dst - std) if len(pre) == 0 else None, True, True, extra, defer=defer)
     for name, z in P4.range_instances():
         std, dst = int(z._std_offset.total_seconds()), int(z._dst_offset.total_seconds())
         _, wps = Z.range_probes(z, Z.YEARS)
         wps += Z.year_edge_probes(Z.YEARS[1:4], (0,))
-        blackbox("range", name, z, std, dst, wps, {"saving": dst - std, "near_year_edge": Z.near_year_edge(z, Z.YEARS)})
+        pending = []
+        blackbox("range", name, z, std, dst, wps, {"near_year_edge": Z.near_year_edge(z, Z.YEARS)}, defer=pending)
+        finalize_range(ctx, z, pending)
+    posix_sweep(ctx)
     with warnings.catch_warnings():
         warnings.simplefilter("ignore")
         ical = tz.tzical(io.StringIO(Z.VTZ)).get()
@@ -186,9 +207,70 @@ def oracle(ctx):
     ctx.sample({"zone": "America/New_York", "wall": "2017-03-12 02:30 (gap)", "line": Z.impl_wall_line(tz.gettz("America/New_York"), 1489285800)})
 
 
+def finalize_range(ctx, z, pending):
+    """a failure in a range zone is a KNOWN finding only if the Lean model of tzrangebase gives the same
+    (wrong) answers at that wall time AND the wall time lies where the recorded defect lives"""
+    if not pending:
+        return
+    std_, dst_, has_, tbl_ = Z.range_zone_params(z, range(min(Z.YEARS) - 1, max(Z.YEARS) + 2))
+    ws = [c["w"] for _, c, _ in pending]
+    got = ctx.driver(["range.wall %d %d %d %s %s" % (std_, dst_, has_, Z.ilist(tbl_), Z.ilist(ws))])[0].split()[1:]
+    for (what, case, probs), g in zip(pending, got):
+        case.update(Z.range_case_fields(z, case["w"], wall=True))
+        case["model_same"] = (g == Z.impl_wall_line(z, case["w"], with_dst_name=False))
+        Z.report(ctx, KNOWN, what, case, probs)
+
+
+E0 = 719163 * 86400
+
+
+def posix_sweep(ctx):
+    """independent pre-image oracle for tzstr / tzrange / tzlocal / tzical zones built from generated POSIX
+    rule specs: the pre-images of a wall time are computed from the Lean spec (`posix.off`, Spec/Posix.lean):
+    t in {w - std, w - dst} with t + Posix.offsetAt(t) = w"""
+    from dateutil import tz
+    from props import c08 as P8
+    rng = ctx.subrng("c05-posix")
+    specs = []
+    while len(specs) < ctx.budget(6, 40):
+        sp = P8.gen_spec(rng)
+        if not P8.in_d_c08(sp):
+            specs.append(sp)
+    ical_spec = {"s": "EST5EDT,M4.1.0,M10.5.0", "std": -18000, "dst": -14400, "sr": ("M", 4, 1, 0), "st": 7200,
+                 "er": ("M", 10, 5, 0), "et": 7200}
+    jobs = []
+    for k, sp in enumerate(specs):
+        zs = tz.tzstr(sp["s"])
+        jobs.append(("tzstr", "tzstr:" + sp["s"], zs, sp, None))
+        jobs.append(("tzrange", "tzrange~" + sp["s"], P8.equivalent_tzrange(sp), sp, None))
+        if k < ctx.budget(2, 8):
+            jobs.append(("tzlocal", "tzlocal:" + P8.posix_canon(sp), None, sp, P8.posix_canon(sp)))
+    with warnings.catch_warnings():
+        warnings.simplefilter("ignore")
+        jobs.append(("tzical", "tzical:US-Eastern", tz.tzical(io.StringIO(Z.VTZ)).get(), ical_spec, None))
+    years = [2000, 2021]
+    for kind, name, z, sp, tzenv in jobs:
+        ref = tz.tzstr(sp["s"])
+        _, wps = Z.range_probes(ref, years)
+        cands = [(w - sp["std"], w - sp["dst"]) for w in wps]
+        reqs = ["posix.off %d %d %s %d %s %d %d" % (sp["std"], sp["dst"], P8.rule_wire(sp["sr"]), sp["st"],
+                                                      P8.rule_wire(sp["er"]), sp["et"], t + E0) for pair in cands for t in pair]
+        offs = [int(r.split()[1]) for r in ctx.driver(reqs)]
+        def run(z):
+            for i, w in enumerate(wps):
+                pre = sorted({t for t, o in zip(cands[i], offs[2 * i: 2 * i + 2]) if t + o == w})
+                classify(ctx, kind + "-posix", name, z, w, pre, (sp["dst"] - sp["std"]) if not pre else None, True, True,
+                         {"spec": sp["s"]})
+        if tzenv is not None:
+            with P4.local_tz(tzenv) as zl:
+                run(zl)
+        else:
+            run(z)
+        ctx.count("posix_sweep_zones:" + kind)
+
+
 KNOWN = {
-    "D-C05r": lambda v: v["case"].get("kind") == "range" and v["case"].get("saving", 0) < 0,
-    "D-C04y": lambda v: v["case"].get("kind") == "range" and v["case"].get("saving", 0) > 0 and v["case"].get("near_year_edge") is True,
+    "D-C05r": Z.k_c05r, "D-C04y": Z.k_c04y,
     "D-C05g": lambda v: v["case"].get("gap_width", 0) > 86400 and "resolve_imaginary" in v["what"],
 }
 
